@@ -9,9 +9,9 @@ M = "vlib.harness.h_prog"
 
 
 def drive(r, programs, n_strict, func, twin, label, cmd, tables, tier, chunk=12, pct=None, static=None, langs="python",
-          strict_vocabulary=False, key=""):
+          strict_vocabulary=False, key="", settings_files=None):
     """programs[:n_strict] are sliced in chunks; programs[n_strict:] (witnesses) one per slice."""
-    batch, info = tbatch.build_batch(programs, cmd=cmd, tables=tables, langs=langs)
+    batch, info = tbatch.build_batch(programs, cmd=cmd, tables=tables, langs=langs, settings_files=settings_files)
     r.extra["lian_run" + key] = {k: info[k] for k in ("rc", "wall_s", "cmd")}
     if info["rc"] != 0 or not any(p["rows"] for p in programs):
         r.harness_error(f"lian {cmd} failed on the batch (rc={info['rc']}): {info['log_tail'][-600:]}")
@@ -63,12 +63,12 @@ def drive(r, programs, n_strict, func, twin, label, cmd, tables, tier, chunk=12,
     return batch
 
 
-def replay_program(rec, func, cmd, tables, all_programs, langs="python"):
+def replay_program(rec, func, cmd, tables, all_programs, langs="python", settings_files=None):
     cex = rec["cex"]["cex"]
     allp = {p["name"]: p for p in all_programs}
     if cex["prog"] not in allp:
         return False, f"program {cex['prog']} is no longer in the family"
-    batch, info = tbatch.build_batch([allp[cex["prog"]]], cmd=cmd, tables=tables, langs=langs)
+    batch, info = tbatch.build_batch([allp[cex["prog"]]], cmd=cmd, tables=tables, langs=langs, settings_files=settings_files)
     path = tbatch.save_batch(batch)
     try:
         out = xrun.replay_native(M, func, dict(batch=path, range=[0, 1]), dict(cex, pidx=0))
